@@ -3,6 +3,7 @@ package vuego
 import (
 	"fmt"
 	"reflect"
+	"sort"
 	"strconv"
 	"strings"
 	"sync"
@@ -307,7 +308,7 @@ func (s *Stack) EnvMap() map[string]any {
 }
 
 // ForEach iterates over a collection at the given expr and calls fn(index,value).
-// Supports slices/arrays and map[string]any (iteration order for maps is unspecified).
+// Supports slices/arrays and maps (maps are visited in the order of their printed keys).
 // If fn returns an error iteration is stopped and the error passed through.
 func (s *Stack) ForEach(expr string, fn func(index int, value any) error) error {
 	v, ok := s.Resolve(expr)
@@ -329,6 +330,11 @@ func (s *Stack) ForEach(expr string, fn func(index int, value any) error) error 
 		return nil
 	case reflect.Map:
 		keys := rv.MapKeys()
+		// Go randomises map iteration; visit keys in a stable order so that the
+		// same template and data always render the same bytes.
+		sort.Slice(keys, func(i, j int) bool {
+			return fmt.Sprint(keys[i].Interface()) < fmt.Sprint(keys[j].Interface())
+		})
 		for i, key := range keys {
 			if err := fn(i, rv.MapIndex(key).Interface()); err != nil {
 				return err
